@@ -251,11 +251,20 @@ fn crash_targets(ctx: &Ctx, rep: &mut Report, mode: Mode, rec: &Recorded, work: 
 		one_target(ctx, rep, mode, rec, work, rng, desc, case_seed, variant, a, ph, k);
 		return
 	}
-	// quick: a sample of the acts; thorough: all
+	// quick: a sample of the acts; thorough: all. Steps that reclaim log files while several
+	// are waiting (log ids get recycled, so file order != record order) are always taken and
+	// swept densely: few boundaries, each of them a distinct ordering hazard.
+	let dirty_of = |i: usize| -> u32 { rec.shape_before[i].split('d').nth(1).and_then(|s| s.chars().next()).and_then(|c| c.to_digit(10)).unwrap_or(0) };
+	let is_reclaim = |t: &(usize, &'static str)| -> bool { t.1 == "step" && matches!(rec.acts[t.0], Act::Step(Step::CleanLogs)) && dirty_of(t.0) >= 2 };
 	let max_targets = ctx.tier.pick(14, 10_000);
 	if targets.len() > max_targets {
-		rng.shuffle(&mut targets);
-		targets.truncate(max_targets);
+		let (mut keep, mut rest): (Vec<_>, Vec<_>) = targets.into_iter().partition(|t| is_reclaim(t));
+		rng.shuffle(&mut keep);
+		keep.truncate(4);
+		rng.shuffle(&mut rest);
+		rest.truncate(max_targets.saturating_sub(keep.len()));
+		keep.extend(rest);
+		targets = keep;
 		targets.sort();
 	}
 	for (act, phase) in targets {
@@ -266,11 +275,38 @@ fn crash_targets(ctx: &Ctx, rep: &mut Report, mode: Mode, rec: &Recorded, work: 
 			one_target(ctx, rep, mode, rec, work, rng, desc, case_seed, variant, act, phase, 0);
 			continue
 		}
-		for k in k_samples(rng, ctx.tier) {
+		let ks = if is_reclaim(&(act, phase)) { (0..60).collect() } else { k_samples(rng, ctx.tier) };
+		if is_reclaim(&(act, phase)) {
+			rep.count("dense_sweeps_of_log_reclaim", 1);
+		}
+		let mut last_open = None; // largest sampled k that was a real boundary
+		let mut first_done = None; // smallest sampled k beyond the last boundary
+		for k in ks {
 			ctx.progress();
 			let completed = one_target(ctx, rep, mode, rec, work, rng, desc, case_seed, variant, act, phase, k);
-			if completed || !ctx.time_left() {
+			if completed {
+				first_done = Some(k);
 				break
+			}
+			last_open = Some(k);
+			if !ctx.time_left() {
+				break
+			}
+		}
+		// quick tier: the geometric sample is thin exactly where log files are reclaimed (the end
+		// of a step / drop / recovery): sweep the tail downwards from the completion point
+		if ctx.tier == Tier::Quick && phase != "drop" {
+			if let (Some(p), Some(c)) = (last_open, first_done) {
+				let mut real = 0;
+				let mut k = c;
+				while k > p + 1 && real < 10 && ctx.time_left() {
+					k -= 1;
+					ctx.progress();
+					if !one_target(ctx, rep, mode, rec, work, rng, desc, case_seed, variant, act, phase, k) {
+						real += 1;
+					}
+				}
+				rep.count("tail_sweeps", 1);
 			}
 		}
 		if rep.get("violations_raw") >= 12 {
